@@ -1,12 +1,15 @@
 from props.common import *
+from props.boundedrun import script
 ID = "C14"
 LEVEL = "proof"
 TAGS = ("C14",)
 CONTRACT_MODULES = ALL_CONTRACTS
 FUNCTIONS = [H + "handleAtCommand", S + "disableExclusion", S + "enableExclusion", S + "exitExcludedRegion", S + "isAnyPointExcluded",
-             S + "isPointExcluded", S + "processLinearMoves", P + "handleAtCommandQueuing", "AtCommandAction.AtCommandAction.matches", "__init__.ExcludeRegionPlugin._handleSettingsUpdated"]
+             S + "isPointExcluded", S + "processLinearMoves", P + "handleAtCommandQueuing", "AtCommandAction.AtCommandAction.matches", "__init__.ExcludeRegionPlugin._handleSettingsUpdated"] + [S + "resetState"]
 ASSUMPTIONS = ["A1", "A2", "A3", "A4", "A5", "INDUCTION"]
-EXTRA_ASSUMPTIONS = ["handleAtCommand is verified for 0, 1 or 2 configured entries per @-command with symbolic actions/patterns (bounded in the "
+BOUNDED = [script("default_actions.py")]
+EXTRA_ASSUMPTIONS = ["the DEFAULT @-command patterns (get_settings_defaults) are checked bounded on the real AtCommandAction objects (bounded/default-actions); custom patterns are opaque predicates",
+                     "handleAtCommand is verified for 0, 1 or 2 configured entries per @-command with symbolic actions/patterns (bounded in the "
                      "number of entries; everything else symbolic); a configured parameterPattern is an opaque predicate"]
 EXPLANATION = ("isPointExcluded/isAnyPointExcluded: while disabled no point is excluded, and the tracked X/Y still follow every pair "
                "(so decisions after re-enabling use the true position); disableExclusion mid-episode returns exactly an exit sequence "
